@@ -499,7 +499,12 @@ def compare(ctx: Ctx, op, a, b):
             return eb <= ea
         if not is_sym(a) and not is_sym(b):
             return _pycmp(op, a, b)
-        ea, eb = z3_of_int(a), z3_of_int(b)
+        if isinstance(a, SymReal) or isinstance(b, SymReal):
+            ea, eb = _as_real(a), _as_real(b)
+            if ea is None or eb is None:
+                raise Unsupported("ordering of a real and a non-number")
+        else:
+            ea, eb = z3_of_int(a), z3_of_int(b)
         if isinstance(op, ast.Lt):
             return ea < eb
         if isinstance(op, ast.LtE):
@@ -565,10 +570,25 @@ def identical(ctx: Ctx, a, b):
     return a is b
 
 
+def _as_real(x):
+    if isinstance(x, SymReal):
+        return x.e
+    if isinstance(x, bool):
+        return None
+    if isinstance(x, (int, SymInt)):
+        return z3.ToReal(z3_of_int(x))
+    if isinstance(x, float):
+        return z3.RealVal(x)
+    return None
+
+
 def binop(ctx: Ctx, op, a, b):
     if isinstance(a, SymAny) or isinstance(b, SymAny):
         raise Unsupported("arithmetic on Any")
     if isinstance(a, SymReal) or isinstance(b, SymReal):
+        ea, eb = _as_real(a), _as_real(b)
+        if ea is not None and eb is not None and isinstance(op, (ast.Add, ast.Sub)):
+            return SymReal(ea + eb if isinstance(op, ast.Add) else ea - eb)
         return SymReal(ctx.fresh("real", z3.RealSort()))
     num = (int, float, SymInt, SymBool, bool)
     if isinstance(a, num) and isinstance(b, num) and not isinstance(a, str):
